@@ -11,7 +11,7 @@ import traceback
 
 from hypothesis import strategies as st
 
-from gen import common
+from gen import common, subproc
 from oracles import refenc, refmsg as M
 from vlib.core import REPO_DIR, Violation, SubCheck
 
@@ -567,6 +567,9 @@ SUBCHECKS = [
                   "truncated / extended payloads; base64 of arbitrary bytes; mangled base64 (whitespace, lost padding, foreign or "
                   "non-ASCII characters, truncation); arbitrary unicode / base64-alphabet text. Must return a bool; for canonical "
                   "base64 payloads the bool must equal the reference verdict (recover and compare)"),
+    SubCheck("verifier_totality_python_O", subproc.optimized_variant("checks.c17_msgsign", "o_totality"), strategy=s_totality, budget=(500, 20000), nontrivial=nt_totality,
+             rule="the verifier_totality cases evaluated in a child interpreter started with PYTHONOPTIMIZE=1 (python -O: assert statements are "
+                  "compiled away, so validation written as an assert vanishes; the child asserts that mode)"),
     SubCheck("sign_verify_pure_python", o_sign_verify_pure, strategy=s_sign_verify, budget=(48, 3000),
              nontrivial=lambda c, l: "msg-bytes=0" not in l,
              rule="the sign_verify cases evaluated in a child interpreter started with PYCOIN_NATIVE=none (pure-Python point "
